@@ -494,6 +494,9 @@ pub fn run_find_prebuilt(sc: &FindScenario, ctx: &mut Ctx, root: PathBuf) -> Fin
         let recs = crate::xargs::parse_child_records(&fs::read(lp).unwrap_or_default());
         real_mismatch = reconcile_real_children(&mut log.borrow_mut(), &recs, &ctx.simchild);
     }
+    // (a relative root - the long working directory - is remembered by its absolute name while
+    // the process is still there, as far as it has one: the oracles compare directories with it)
+    let root = if root.is_relative() { std::env::current_dir().unwrap_or(root) } else { root };
     let _ = std::env::set_current_dir(&ctx.scratch);
     drop(mstate);
     let log = match Rc::try_unwrap(log) {
